@@ -442,6 +442,7 @@ struct Runner : RunnerBase {
     void sethandler(std::ostream& os, const std::string& pfx, const std::string& which) override {
         if constexpr (std::is_assignable_v<decltype((P::error)), error_handler_type>) {
             if (which == "alt") P::error = [](const error_type& e) { throw Caught{"ALT " + describe_error(e)}; };
+            else if (which == "returning") P::error = [](const error_type& e) { std::cout << "handler-returned " << describe_error(e) << std::endl; };
             else P::error = throwing_handler;
             os << pfx << "sethandler " << which << " ok\n";
         } else {
